@@ -384,10 +384,13 @@ func plainValue(v reflect.Value, busy map[reflect.Type]bool) string {
 		for it.Next() {
 			k := it.Key()
 			var kt string
-			if k.Kind() == reflect.String {
+			switch {
+			case k.Kind() == reflect.String:
 				kt = hx.App("KS", hx.Str(k.String()))
-			} else {
+			case keyText(k) != "":
 				kt = hx.App("KI", zterm(keyText(k)))
+			default: // a key kind encoding/json cannot use: only a placeholder
+				kt = hx.App("KS", hx.Str(fmt.Sprint(k.Interface())))
 			}
 			kvs = append(kvs, kv{keyText(k), hx.T(kt, valueTerm(Addressable(it.Value()), busy))})
 		}
